@@ -1,24 +1,33 @@
-(* Executable comparison used by the C17 correspondence: the model of Model/HourlyPrep.v at A := Q,
-   run on the input of one implementation execution and compared with what the implementation returned. *)
-From Coq Require Import ZArith QArith Qabs Qminmax List Bool.
+(* Executable comparison used by the C17 correspondence: the model of Model/HourlyPrep.v instantiated at the payload
+   A := binary64 (PrimFloat), run on the input of one implementation execution and compared with what the
+   implementation returned.  The theorems of Properties/C17.v hold for every payload type, zero test, interpolation
+   function and estimator, hence for this instance.
+
+   A frame of two years has 17 544 rows; as list literals of Z / Q numerals the cases files cost tens of GB of memory
+   in coqc.  The harness therefore writes every column as a primitive array of binary64 / 63-bit integer literals (one
+   machine word per cell); NaN is [None]. *)
+From Coq Require Import PrimFloat Uint63 PArray.
+From Coq Require Import ZArith List Bool.
 From V Require Import Model.CasesLib Model.HourlyPrep.
 Import ListNotations.
 Open Scope Z_scope.
 
-Definition qzero (q : Q) : bool := Qnum q =? 0.
-(* np.interp: y0 + (y1 - y0) / (x1 - x0) * (x - x0) on an equally spaced index *)
-Definition qlin (v0 v1 : Q) (d0 d1 : Z) : Q :=
-  Qred (v0 + (v1 - v0) * inject_Z d0 / inject_Z (d0 + d1))%Q.
+(* ------------------------------------------------------------------ the binary64 instance (primitives eta-expanded) *)
+Definition fzero (x : float) : bool := PrimFloat.eqb x 0%float.          (* df["observed"] == 0 : true for -0.0 as well *)
+Definition fofz (z : Z) : float := PrimFloat.of_uint63 (Uint63.of_Z z).  (* distances are small non-negative integers *)
+(* np.interp on an equally spaced index: y0 + (y1 - y0) / (x1 - x0) * (x - x0) *)
+Definition flin (v0 v1 : float) (d0 d1 : Z) : float :=
+  PrimFloat.add v0 (PrimFloat.mul (PrimFloat.div (PrimFloat.sub v1 v0) (fofz (d0 + d1))) (fofz d0)).
 
 (* |a - b| <= 1e-9 * max(1, |a|, |b|)  (DESIGN 3.1: interpolated values go through float division) *)
-Definition close (a b : Q) : bool :=
-  Qeq_bool a b ||
-  Qle_bool (Qabs (a - b)) ((1 # 1000000000) * Qmax 1 (Qmax (Qabs a) (Qabs b)))%Q.
+Definition fmax (x y : float) : float := if PrimFloat.ltb x y then y else x.
+Definition close (x y : float) : bool :=
+  PrimFloat.eqb x y ||
+  PrimFloat.leb (PrimFloat.abs (PrimFloat.sub x y))
+                (PrimFloat.mul 0x1.12e0be826d695p-30%float (fmax 1%float (fmax (PrimFloat.abs x) (PrimFloat.abs y)))).
 
-Definition qrow := row Q.
-(* compact literals: a binary64 value is n / 2^e *)
-Definition F (n e : Z) : option Q := Some (Qmake n (Z.to_pos (2 ^ e))).
-Definition R (t : Z) (a b c : option Q) : qrow := mkrow t a b c.
+Definition frow := row float.
+Definition fcell (x : float) : option float := if PrimFloat.is_nan x then None else Some x.
 
 Definition triple (B : Type) := (B * B * B)%type.
 Definition sel3 {B} (p : triple B) (c : colname) : B :=
@@ -28,38 +37,36 @@ Record case := mkcase {
   k_elec : bool;
   k_bnds : list Z;                       (* local-day starts (UTC minutes), ascending *)
   k_edges : edges;
-  k_rows : list qrow;                    (* the input frame, in the order given (duplicates, any order) *)
-  k_est : triple (list (option Q));      (* proposal of the autocorrelation stage per column: recorded from the
+  k_rows : list frow;                    (* the input frame, in the order given (duplicates, any order) *)
+  k_est : triple (list (option float));  (* proposal of the autocorrelation stage per column: recorded from the
                                             execution, or — when it could not be recorded — the final column itself *)
   k_lo : Z;                              (* observed: first stamp, number of rows *)
   k_n : nat;
-  k_val : triple (list (option Q));      (* observed columns *)
+  k_val : triple (list (option float));  (* observed columns *)
   k_flag : triple (list bool)            (* observed interpolated_<col> *)
 }.
 
-Definition model_col (k : case) (c : colname) : out_col Q :=
-  prep_col_fast qzero qlin (fun c _ => sel3 (k_est k) c) (k_elec k) (k_bnds k) (k_edges k) (k_rows k) c.
+Definition model_col (k : case) (c : colname) : out_col float :=
+  prep_col_fast fzero flin (fun c _ => sel3 (k_est k) c) (k_elec k) (k_bnds k) (k_edges k) (k_rows k) c.
+Definition model_col_spec (k : case) (c : colname) : out_col float :=
+  prep_col fzero flin (fun c _ => sel3 (k_est k) c) (k_elec k) (k_bnds k) (k_edges k) (k_rows k) c.
 
-Definition check_col (k : case) (c : colname) : bool :=
-  let out := model_col k c in
-  list_eqb Z.eqb (map (fun p => fst (fst p)) out) (grid_from (k_n k) (k_lo k))
-  && list_eqb (opt_eqb close) (map (fun p => snd (fst p)) out) (sel3 (k_val k) c)
-  && list_eqb Bool.eqb (map snd out) (sel3 (k_flag k) c).
+Definition agrees (k : case) (c : colname) (out : out_col float) : bool :=
+  list_eqb Z.eqb (map (fun p : Z * option float * bool => fst (fst p)) out) (grid_from (k_n k) (k_lo k))
+  && list_eqb (opt_eqb close) (map (fun p : Z * option float * bool => snd (fst p)) out) (sel3 (k_val k) c)
+  && list_eqb Bool.eqb (map (fun p : Z * option float * bool => snd p) out) (sel3 (k_flag k) c).
 
+Definition check_col (k : case) (c : colname) : bool := agrees k c (model_col k c).
 Definition check_case (k : case) : bool := check_col k Temp && check_col k Obs && check_col k Ghi.
 
-(* the quadratic specification, used on small frames to tie [prep_col] itself (not only the fast variant) *)
-Definition check_col_spec (k : case) (c : colname) : bool :=
-  let out := prep_col qzero qlin (fun c _ => sel3 (k_est k) c) (k_elec k) (k_bnds k) (k_edges k) (k_rows k) c in
-  list_eqb Z.eqb (map (fun p => fst (fst p)) out) (grid_from (k_n k) (k_lo k))
-  && list_eqb (opt_eqb close) (map (fun p => snd (fst p)) out) (sel3 (k_val k) c)
-  && list_eqb Bool.eqb (map snd out) (sel3 (k_flag k) c).
+(* the quadratic specification, used on small frames to tie [prep_col] itself (not only the finite-map variant) *)
 Definition check_case_spec (k : case) : bool :=
-  check_col_spec k Temp && check_col_spec k Obs && check_col_spec k Ghi && check_case k.
+  agrees k Temp (model_col_spec k Temp) && agrees k Obs (model_col_spec k Obs) && agrees k Ghi (model_col_spec k Ghi)
+  && check_case k.
 
-(* diagnostics: positions where model and observation differ, per column: (index, model value, model flag) *)
-Fixpoint diff_from (i : Z) (m : out_col Q) (v : list (option Q)) (f : list bool)
-  : list (Z * Z * option Q * bool) :=
+(* diagnostics: positions where model and observation differ, per column: (index, stamp, model value, model flag) *)
+Fixpoint diff_from (i : Z) (m : out_col float) (v : list (option float)) (f : list bool)
+  : list (Z * Z * option float * bool) :=
   match m, v, f with
   | (t, mv, mf) :: m', ev :: v', ef :: f' =>
       if opt_eqb close mv ev && Bool.eqb mf ef then diff_from (i + 1) m' v' f'
@@ -68,54 +75,62 @@ Fixpoint diff_from (i : Z) (m : out_col Q) (v : list (option Q)) (f : list bool)
   end.
 Definition explain (k : case) (c : colname) :=
   let out := model_col k c in
-  (length out, hd 0 (map (fun p => fst (fst p)) out), firstn 5 (diff_from 0 out (sel3 (k_val k) c) (sel3 (k_flag k) c))).
+  (List.length out, hd 0 (map (fun p : Z * option float * bool => fst (fst p)) out),
+   firstn 5 (diff_from 0 out (sel3 (k_val k) c) (sel3 (k_flag k) c))).
 
-(* ------------------------------------------------------------------ compact case files
-   A frame of two years has 17 544 rows; as list literals of Z / Q numerals the cases files cost tens of GB of
-   memory in coqc.  The harness therefore writes every column as a primitive array of binary64 / 63-bit integer
-   literals (one machine word per cell) and the comparison converts them here: a binary64 value is read exactly
-   (Prim2SF: sign, mantissa, exponent), NaN is [None]. *)
-From Coq Require Import PrimFloat Uint63 FloatOps SpecFloat PArray.
-
-Definition f2q (x : float) : option Q :=
-  match Prim2SF x with
-  | S754_zero _ => Some (0 # 1)%Q
-  | S754_finite s m e =>
-      let v := if e <? 0 then Qmake (Zpos m) (Z.to_pos (2 ^ (- e))) else Qmake (Zpos m * 2 ^ e) 1 in
-      Some (Qred (if s then Qopp v else v))
-  | _ => None
-  end.
-
+(* ------------------------------------------------------------------ compact case files *)
 Fixpoint tolist {B} (a : array B) (n : nat) (i : int) : list B :=
   match n with O => [] | S n' => PArray.get a i :: tolist a n' (Uint63.add i 1%uint63) end.
-Definition alist {B} (a : array B) : list B := tolist a (Z.to_nat (Uint63.to_Z (PArray.length a))) 0%uint63.
-Definition qcol (a : array float) : list (option Q) := map f2q (alist a).
-Definition bcol (a : array int) : list bool := map (fun i => negb (Uint63.eqb i 0%uint63)) (alist a).
+Definition alen {B} (a : array B) : nat := Z.to_nat (Uint63.to_Z (PArray.length a)).
+Definition alist {B} (a : array B) : list B := tolist a (alen a) 0%uint63.
+Definition fcol (a : array float) : list (option float) := map fcell (alist a).
+(* an empty array stands for a column that is missing throughout (no ghi / no observed column) *)
+Definition fcol_n (n : nat) (a : array float) : list (option float) :=
+  match alen a with O => repeat None n | _ => fcol a end.
 Definition zcol (a : array int) : list Z := map Uint63.to_Z (alist a).
+(* interpolated_<col> of the three columns packed into one integer per row: bit 0 temperature, 1 observed, 2 ghi *)
+Definition bitcol (k : int) (a : array int) : list bool :=
+  map (fun i => negb (Uint63.eqb (Uint63.land (Uint63.lsr i k) 1%uint63) 0%uint63)) (alist a).
+(* the imputer's proposal as (position, value) pairs, positions ascending; everything else is "no proposal" *)
+Fixpoint dense (n : nat) (i : Z) (pos : list Z) (val : list (option float)) : list (option float) :=
+  match n with
+  | O => []
+  | S n' =>
+      match pos, val with
+      | p :: pos', v :: val' => if p =? i then v :: dense n' (i + 1) pos' val' else None :: dense n' (i + 1) pos val
+      | _, _ => None :: dense n' (i + 1) [] []
+      end
+  end.
 
 Record acase := mkacase {
   a_elec : bool; a_lo_fwd : int; a_hi_back : int;
   a_bnds : array int;
   a_ts : array int; a_temp : array float; a_obs : array float; a_ghi : array float;
-  a_est_t : array float; a_est_o : array float; a_est_g : array float;
+  a_est : bool;                                        (* a proposal of the autocorrelation stage is given *)
+  a_pos_t : array int; a_est_t : array float;
+  a_pos_o : array int; a_est_o : array float;
+  a_pos_g : array int; a_est_g : array float;
   a_lo : int; a_n : int;
   a_val_t : array float; a_val_o : array float; a_val_g : array float;
-  a_flag_t : array int; a_flag_o : array int; a_flag_g : array int
+  a_flags : array int
 }.
 
-Fixpoint rows_of (t : list Z) (a b c : list (option Q)) : list qrow :=
+Fixpoint rows_of (t : list Z) (a b c : list (option float)) : list frow :=
   match t, a, b, c with
   | t0 :: t', a0 :: a', b0 :: b', c0 :: c' => mkrow t0 a0 b0 c0 :: rows_of t' a' b' c'
   | _, _, _, _ => []
   end.
 
 Definition to_case (a : acase) : case :=
+  let n_in := alen (a_ts a) in
+  let n := Z.to_nat (Uint63.to_Z (a_n a)) in
+  let est := fun (p : array int) (v : array float) => if a_est a then dense n 0 (zcol p) (fcol v) else [] in
   mkcase (a_elec a) (zcol (a_bnds a)) (mkedges (Uint63.to_Z (a_lo_fwd a)) (Uint63.to_Z (a_hi_back a)))
-         (rows_of (zcol (a_ts a)) (qcol (a_temp a)) (qcol (a_obs a)) (qcol (a_ghi a)))
-         (qcol (a_est_t a), qcol (a_est_o a), qcol (a_est_g a))
-         (Uint63.to_Z (a_lo a)) (Z.to_nat (Uint63.to_Z (a_n a)))
-         (qcol (a_val_t a), qcol (a_val_o a), qcol (a_val_g a))
-         (bcol (a_flag_t a), bcol (a_flag_o a), bcol (a_flag_g a)).
+         (rows_of (zcol (a_ts a)) (fcol (a_temp a)) (fcol_n n_in (a_obs a)) (fcol_n n_in (a_ghi a)))
+         (est (a_pos_t a) (a_est_t a), est (a_pos_o a) (a_est_o a), est (a_pos_g a) (a_est_g a))
+         (Uint63.to_Z (a_lo a)) n
+         (fcol (a_val_t a), fcol_n n (a_val_o a), fcol_n n (a_val_g a))
+         (bitcol 0%uint63 (a_flags a), bitcol 1%uint63 (a_flags a), bitcol 2%uint63 (a_flags a)).
 
 Definition check_acase (a : acase) : bool := check_case (to_case a).
 Definition check_acase_spec (a : acase) : bool := check_case_spec (to_case a).
